@@ -472,6 +472,41 @@ def ciaactive_fn(case):
 
 
 
+def rayorder_fn(case):
+    """Scattering components next to gases that have no scattering law of their own (TiO, Na): each component is its own
+    species' cross-section weighted by its own mixing ratio, wherever the law-less gases stand in the gas list."""
+    from taurex.util.scattering import rayleigh_sigma_from_name
+    from taurex.cache import OpacityCache
+    r = core.R(case)
+    fx.reset_caches()
+    base = dict((k, v[0]) for k, v in DIMS.items() if k != 'order')
+    base.update(N=3, mag='tau1')
+    tabs, cias = install(base)
+    for mol in ('TiO', 'Na'):
+        OpacityCache().add_opacity(fx.TinyOp(mol, WN, TG, PG, fx.table(3, 3, 4, 1e-27, salt=('c03', mol))))
+    gases = [[g_, ['const', ab]] for g_, ab in zip(case['gases'], (2e-6, 1e-4, 3e-5, 5e-6))]
+    m = fx.build_model({'kind': 'transmission', 'N': 3, 'T': ['dec'], 'gases': gases, 'contribs': ['abs', 'ray']})
+    m.model()
+    ray = [c_ for c_ in m.contribution_list if type(c_).__name__ == 'RayleighContribution'][0]
+    seen = []
+    for name, sig in ray.prepare_each(m, np.array(WN)):
+        sig = np.array(sig, float)
+        seen.append(name)
+        law = rayleigh_sigma_from_name(name, np.array(WN))
+        if not r.check(law is not None, 'component-set', 'rayleigh-order/component-without-law', name=name):
+            continue
+        chi = np.asarray(m.chemistry.get_gas_mix_profile(name), float)
+        r.eq(sig, law[None, :] * chi[:, None], 'component-weighted-opacity', 'rayleigh-order/component', component=name,
+             gases=case['gases'], atol=1e-300)
+    want = [g_ for g_ in list(m.chemistry.activeGases) + list(m.chemistry.inactiveGases)
+            if rayleigh_sigma_from_name(g_, np.array(WN)) is not None]
+    r.check(sorted(seen) == sorted(want), 'component-set', 'rayleigh-order/component-set', got=seen, want=want)
+    r.observe(seen)
+    r.nontrivial = True
+    return r
+
+
+
 def explore(ctx):
     import json
     dims = dict(DIMS)
@@ -504,3 +539,5 @@ def explore(ctx):
     ca = [{'N': n_, 'mag': mg, 'ch4': ab, 'order': od} for n_ in (3, 5) for mg in ('tau1', 'thin') for ab in (3e-5, 1e-2, 0.0)
           for od in (['abs', 'cia'], ['cia'], ['cia', 'abs', 'ray'])]
     ctx.run_cases('ciaactive_fn', ca, phase='cia-active-partner')
+    ro = [{'gases': list(p_)} for p_ in itertools.permutations(['TiO', 'H2O', 'CH4', 'Na'])]
+    ctx.run_cases('rayorder_fn', ro, phase='rayleigh-order')
